@@ -4,6 +4,7 @@ package main
 
 import (
 	"fmt"
+	"go/ast"
 	"go/token"
 	"sort"
 	"strings"
@@ -250,8 +251,29 @@ func ruleC04(c *Check) {
 		}
 		shape, okShape := c.triggerShape(trig)
 		c.req(okShape, "C04.1", unitConstruct(f, "trigger"), f.Body.Pos(), "slash trigger in this unit: "+strings.Join(trig.Sorted(), " ∧ ")+" — "+shape)
+		// slashes decided per element of a scan written in this unit: a path that does not enter that scan handles no element
+		slashLoops := map[ast.Node]bool{}
+		allInLoops := len(with) > 0
+		for _, pa := range with {
+			if ev, ok := pathHasCallTo(pa, ss); ok && ev.Loop != nil {
+				slashLoops[ast.Node(ev.Loop)] = true
+			} else {
+				allInLoops = false
+			}
+		}
 		// every non-slashing committed path negates a trigger fact
 		for _, pa := range without {
+			if allInLoops {
+				entered := false
+				for _, ev := range pa.Events {
+					if ev.Kind == EvLoop && slashLoops[ev.Node] {
+						entered = true
+					}
+				}
+				if !entered {
+					continue
+				}
+			}
 			neg := false
 			af := pa.AllFacts()
 			for _, tf := range trig {
@@ -303,6 +325,12 @@ func (c *Check) triggerShape(trig FactSet) (string, bool) {
 		f := trig[keys[0]]
 		if f.Neg && strings.HasSuffix(f.T.Op, ".SuperMode") {
 			return "expired request not in super mode", true
+		}
+		// the output validator itself accepts an absent output: its failure alone is the malformed-output predicate
+		if f.Neg && f.T.Op == "ok" && f.T.A[0].Op == c.typesName("ValidateResponseOutput") && len(f.T.A[0].A) == 1 {
+			if _, ne := hasFact(c.closeFacts(trig), "(nonempty "+f.T.A[0].A[0].String()+")", false); ne {
+				return "non-empty output that fails the output schema (the validator rejects only non-empty outputs)", true
+			}
 		}
 	}
 	if len(keys) == 2 {
@@ -618,7 +646,7 @@ func (c *Check) existsUnderScan(f *Func, t *Term, fams map[string]bool) bool {
 				continue
 			}
 			for _, a := range t.A {
-				if a.IsAt(b.IdP) {
+				if b.isID(a) {
 					return true
 				}
 			}
